@@ -610,6 +610,53 @@ func c18Families(c *Ctx) {
 		sh := callsNamed(f, "math/rand.Shuffle", "math/rand/v2.Shuffle")
 		ok := len(sh) == 1 && len(fe) == 1 && instrDominates(sh[0], fe[0])
 		why := "the address list is not shuffled (with math/rand.Shuffle) before one address per family is taken: the same addresses would always be dialled"
+		if !ok && len(sh) == 0 && len(fe) == 1 {
+			// helper form: firstOfEachIPFamily(shuffledCopy(ips)) — the helper shuffles the list it returns
+			if hc, isCall := fe[0].(*ssa.Call).Call.Args[0].(*ssa.Call); isCall {
+				if h := hc.Call.StaticCallee(); h != nil && h.Pkg == f.Pkg && len(h.Blocks) > 0 {
+					hs := callsNamed(h, "math/rand.Shuffle", "math/rand/v2.Shuffle")
+					if len(hs) == 1 {
+						sc := hs[0].(*ssa.Call)
+						swap := closureOf(sc.Call.Args[1])
+						good := swap != nil
+						nret := 0
+						eachInstr(h, func(i ssa.Instruction) {
+							ret, isR := i.(*ssa.Return)
+							if !isR || !good {
+								return
+							}
+							nret++
+							cell := loadedCell(ret.Results[0])
+							same := false
+							if cell != nil {
+								for _, fv := range swap.FreeVars {
+									if rootCell(fv) == cell {
+										same = true
+									}
+								}
+							}
+							if !same || !instrDominates(sc, ret) || !lenOf(sc.Call.Args[0], func(v ssa.Value) bool { return loadedCell(v) == cell }) {
+								good = false
+							}
+						})
+						n := 0
+						if swap != nil {
+							eachInstr(swap, func(i ssa.Instruction) {
+								if st, isSt := i.(*ssa.Store); isSt {
+									if _, isIA := st.Addr.(*ssa.IndexAddr); isIA {
+										n++
+									}
+								}
+							})
+						}
+						if good && nret > 0 && n == 2 {
+							c.Pass(keyR, rR, "firstOfEachIPFamily("+h.Name()+"(ips)): the helper shuffles the list it returns", c.at(sc), c.at(fe[0]))
+							continue
+						}
+					}
+				}
+			}
+		}
 		if ok {
 			sc, fc := sh[0].(*ssa.Call), fe[0].(*ssa.Call)
 			cell := loadedCell(fc.Call.Args[0])
